@@ -163,7 +163,7 @@ def mk_bondlist(I, tag="", max_ok=True):
     a, k, k2 = z3.Ints("a!r k!r k2!r")
     I.ctx.assume(z3.ForAll([k], z3.Implies(z3.And(k >= 0, k < nb),
                                            z3.And(row(B, k, 0) >= 0, row(B, k, 0) <= row(B, k, 1), row(B, k, 1) < n.term,
-                                                  row(B, k, 2) >= 0, row(B, k, 2) <= 255))))
+                                                  row(B, k, 2) >= 0, row(B, k, 2) < len(get_class(I, BONDS, "BondType").members)))))
     I.ctx.assume(z3.ForAll([k, k2], z3.Implies(z3.And(k >= 0, k < k2, k2 < nb),
                                                z3.Or(row(B, k, 0) != row(B, k2, 0), row(B, k, 1) != row(B, k2, 1)))))
     if max_ok:
@@ -395,3 +395,197 @@ CASES.append(Case(BONDS + "::BondList.remove_bond", setup=setup_remove_bond, cal
                   raises={"IndexError": "a1 < -n or a1 >= n or a2 < -n or a2 >= n"},
                   loops={0: {"invariant": [inv_remove_bond], "modifies": ["self._bonds"]}},
                   ensures=[("mapping_without_pair", ens_remove_bond)]))
+
+
+# -- remove_bonds_to
+
+def setup_remove_to(I):
+    obj, g = mk_bondlist(I)
+    a = sym_c(I, "int32", "atom_index")
+    g["a"] = a.term
+    g["idx"] = z3.If(a.term < 0, a.term + g["n"], a.term)
+    return {"args": [obj, a], "ghost": g}
+
+
+def inv_remove_to(I, env):
+    g = I.ghost["bl"]
+    i = zint(I.unC(env.lookup("i")))
+    mask = env.lookup("mask_v").arr
+    B, idx = g["B"], g["idx"]
+    k = z3.Int("k!t")
+    return z3.And(i >= 0, i <= g["nb"], g["self"].attrs["_bonds"].arr == B,
+                  z3.ForAll([k], z3.Implies(z3.And(k >= 0, k < g["nb"]),
+                                            z3.Select(mask, k) == z3.If(z3.And(k < i, incident(B, k, idx)), 0, 1))))
+
+
+def ens_remove_to(I, env):
+    """the list holds exactly the rows not incident to the atom, in their order (RANK: library
+    contract of boolean-mask indexing; the mask is characterised by the loop invariant)"""
+    g = I.ghost["bl"]
+    arr = g["self"].attrs["_bonds"]
+    B, nb, idx = g["B"], g["nb"], g["idx"]
+    rank = getattr(arr, "rank", None)
+    if rank is None:
+        return [("result_is_a_mask_selection", False)]
+    src, mask = arr.rank_of
+    k = I.ctx.fresh_int("k")
+    return [("selection_of_the_old_rows", src.arr == B),
+            ("mask_is_not_incident", implies(z3.And(k >= 0, k < nb), (z3.Select(mask.arr, k) != 0) == z3.Not(incident(B, k, idx)))),
+            ("kept_rows_in_order", implies(z3.And(k >= 0, k < nb, z3.Not(incident(B, k, idx))),
+                                           z3.Select(arr.arr, rank(k)) == z3.Select(B, k))),
+            ("length", zint(arr.shape[0]) == rank(nb)),
+            ("cache_and_count_unchanged", z3.And(zint(I.unC(g["self"].attrs["_max_bonds_per_atom"])) == g["M"],
+                                                 zint(I.unC(g["self"].attrs["_atom_count"])) == g["n"]))]
+
+
+CASES.append(Case(BONDS + "::BondList.remove_bonds_to", setup=setup_remove_to, call_contracts=CC,
+                  raises={"IndexError": "a < -n or a >= n"},
+                  loops={0: {"invariant": [inv_remove_to]}},
+                  ensures=[("rows_not_incident", ens_remove_to)]))
+
+
+# -- remove_bonds (nested loops over both lists)
+
+def setup_remove_bonds(I):
+    obj, g = mk_bondlist(I)
+    other, g2 = mk_bondlist(I, tag="2")
+    g["R"], g["nr"] = g2["B"], g2["nb"]
+    return {"args": [obj, other], "ghost": g}
+
+
+def _listed(g, k, upto):
+    """row k of the list matches one of the first `upto` rows of the argument"""
+    q = z3.Int("q!l")
+    return z3.Exists([q], z3.And(q >= 0, q < upto, row(g["R"], q, 0) == row(g["B"], k, 0), row(g["R"], q, 1) == row(g["B"], k, 1)))
+
+
+def inv_remove_bonds_outer(I, env):
+    g = I.ghost["bl"]
+    i = zint(I.unC(env.lookup("i")))
+    mask = env.lookup("mask_v").arr
+    k = z3.Int("k!u")
+    return z3.And(i >= 0, i <= g["nb"], g["self"].attrs["_bonds"].arr == g["B"],
+                  z3.ForAll([k], z3.Implies(z3.And(k >= 0, k < g["nb"]),
+                                            z3.Select(mask, k) == z3.If(z3.And(k < i, _listed(g, k, g["nr"])), 0, 1))))
+
+
+def inv_remove_bonds_inner(I, env):
+    g = I.ghost["bl"]
+    i = zint(I.unC(env.lookup("i")))
+    j = zint(I.unC(env.lookup("j")))
+    mask = env.lookup("mask_v").arr
+    k = z3.Int("k!v")
+    return z3.And(i >= 0, i < g["nb"], j >= 0, j <= g["nr"], g["self"].attrs["_bonds"].arr == g["B"],
+                  z3.Select(mask, i) == z3.If(_listed(g, i, j), 0, 1),
+                  z3.ForAll([k], z3.Implies(z3.And(k >= 0, k < g["nb"], k != i),
+                                            z3.Select(mask, k) == z3.If(z3.And(k < i, _listed(g, k, g["nr"])), 0, 1))))
+
+
+def ens_remove_bonds(I, env):
+    g = I.ghost["bl"]
+    arr = g["self"].attrs["_bonds"]
+    B, nb = g["B"], g["nb"]
+    rank = getattr(arr, "rank", None)
+    if rank is None:
+        return [("result_is_a_mask_selection", False)]
+    src, mask = arr.rank_of
+    k = I.ctx.fresh_int("k")
+    return [("selection_of_the_old_rows", src.arr == B),
+            ("mask_is_not_listed", implies(z3.And(k >= 0, k < nb), (z3.Select(mask.arr, k) != 0) == z3.Not(_listed(g, k, g["nr"])))),
+            ("kept_rows_in_order", implies(z3.And(k >= 0, k < nb, z3.Not(_listed(g, k, g["nr"]))),
+                                           z3.Select(arr.arr, rank(k)) == z3.Select(B, k))),
+            ("length", zint(arr.shape[0]) == rank(nb))]
+
+
+CASES.append(Case(BONDS + "::BondList.remove_bonds", setup=setup_remove_bonds,
+                  loops={0: {"invariant": [inv_remove_bonds_outer]}, 1: {"invariant": [inv_remove_bonds_inner]}},
+                  ensures=[("rows_not_listed", ens_remove_bonds)]))
+
+
+# -- __contains__
+
+def setup_contains(I):
+    obj, g = mk_bondlist(I)
+    x, y = sym_int(I, "item0", 0, 2 ** 32 - 1), sym_int(I, "item1", 0, 2 ** 32 - 1)
+    g["lo"], g["hi"] = z3.If(x <= y, x, y), z3.If(x <= y, y, x)
+    return {"args": [obj, (x, y)], "ghost": g}
+
+
+def inv_contains(I, env):
+    g = I.ghost["bl"]
+    i = zint(I.unC(env.lookup("i")))
+    k = z3.Int("k!c")
+    return z3.And(i >= 0, i <= g["nb"],
+                  z3.ForAll([k], z3.Implies(z3.And(k >= 0, k < i),
+                                            z3.Not(z3.And(row(g["B"], k, 0) == g["lo"], row(g["B"], k, 1) == g["hi"])))))
+
+
+def ens_contains(I, env):
+    g = I.ghost["bl"]
+    r = zbool(I.unC(env.vars["result"]))
+    k = z3.Int("k!e")
+    present = z3.Exists([k], z3.And(k >= 0, k < g["nb"], row(g["B"], k, 0) == g["lo"], row(g["B"], k, 1) == g["hi"]))
+    return [("membership", r == present)]
+
+
+CASES.append(Case(BONDS + "::BondList.__contains__", setup=setup_contains,
+                  loops={0: {"invariant": [inv_contains]}},
+                  ensures=[("pair_in_mapping", ens_contains)]))
+
+
+
+# -- get_all_bonds
+
+def setup_all_bonds(I):
+    obj, g = mk_bondlist(I)
+    I.ctx.assume(g["n"] <= 2 ** 31 - 1)       # atom indices are returned as int32
+    return {"args": [obj], "ghost": g}
+
+
+def inv_all_bonds(I, env):
+    g = I.ghost["bl"]
+    i = zint(I.unC(env.lookup("i")))
+    out, typ, lens = env.lookup("bonds_v").arr, env.lookup("bond_types_v").arr, env.lookup("lengths_v").arr
+    B, n = g["B"], g["n"]
+    a, k, c = z3.Ints("a!l k!l c!l")
+    x, y = row(B, k, 0), row(B, k, 1)
+    sel2 = lambda A, r, q: z3.Select(z3.Select(A, r), q)
+    return z3.And(i >= 0, i <= g["nb"],
+                  z3.ForAll([a], z3.Implies(z3.And(a >= 0, a < n), z3.Select(lens, a) == OCC(a, i))),
+                  z3.ForAll([k], z3.Implies(z3.And(k >= 0, k < i),
+                                            z3.And(sel2(out, x, OCC(x, k)) == y, sel2(typ, x, OCC(x, k)) == row(B, k, 2),
+                                                   z3.Implies(x != y, z3.And(sel2(out, y, OCC(y, k)) == x,
+                                                                             sel2(typ, y, OCC(y, k)) == row(B, k, 2)))))),
+                  # slots beyond the filled part still hold the padding value
+                  z3.ForAll([a, c], z3.Implies(z3.And(a >= 0, a < n, c >= OCC(a, i), c < g["M"]),
+                                               z3.And(sel2(out, a, c) == -1, sel2(typ, a, c) == -1))))
+
+
+def ens_all_bonds(I, env):
+    g = I.ghost["bl"]
+    res = env.vars["result"]
+    out, typ = res[0], res[1]
+    B, n, nb = g["B"], g["n"], g["nb"]
+    k, a, c = I.ctx.fresh_int("k"), I.ctx.fresh_int("a"), I.ctx.fresh_int("c")
+    x, y = row(B, k, 0), row(B, k, 1)
+    sel2 = lambda A, r, q: z3.Select(z3.Select(A, r), q)
+    return [("shape", z3.And(natives.eq(I, out.shape[0], n), natives.eq(I, out.shape[1], g["M"]),
+                             natives.eq(I, typ.shape[0], n), natives.eq(I, typ.shape[1], g["M"]))),
+            ("every_bond_listed_for_both_atoms",
+             implies(z3.And(k >= 0, k < nb),
+                     z3.And(sel2(out.arr, x, OCC(x, k)) == y, sel2(typ.arr, x, OCC(x, k)) == row(B, k, 2),
+                            z3.Implies(x != y, z3.And(sel2(out.arr, y, OCC(y, k)) == x, sel2(typ.arr, y, OCC(y, k)) == row(B, k, 2)))))),
+            ("padding_after_the_neighbours",
+             implies(z3.And(a >= 0, a < n, c >= OCC(a, nb), c < g["M"]),
+                     z3.And(sel2(out.arr, a, c) == -1, sel2(typ.arr, a, c) == -1)))]
+
+
+CASES.append(Case(BONDS + "::BondList.get_all_bonds", setup=setup_all_bonds,
+                  loops={0: {"invariant": [inv_all_bonds]}},
+                  ensures=[("neighbour_table", ens_all_bonds)], timeout=30))
+
+from pyvc.api import bounded_via_script
+bounded = bounded_via_script("C02")
+ASSUMPTIONS.append("bounded stand-in (labelled, not a proof) for the NumPy-vectorised methods that are not under contract (__init__, merge, concatenate, "
+                   "__getitem__, offset_indices, matrices, graph, equality) and for whole histories: seeded random operation sequences on the compiled "
+                   "BondList vs a reference mapping, invalid indices probed in child processes (bounded/C02.py)")
